@@ -57,6 +57,10 @@ pub fn normalize_separators(path: &str) -> String {
 pub(crate) fn normalize_for_matching(path: &Path) -> PathBuf {
     let path_str = path.to_string_lossy();
 
+    // An absolute path below the current directory is matched by its relative form, so that
+    // `check /abs/project` and `check .` see the same patterns
+    let path_str = strip_current_dir(&path_str).map_or(path_str.clone(), std::borrow::Cow::Owned);
+
     // Strip leading "./" (Unix) or ".\" (Windows)
     let stripped = path_str
         .strip_prefix("./")
@@ -74,6 +78,30 @@ pub(crate) fn normalize_for_matching(path: &Path) -> PathBuf {
     } else {
         PathBuf::from(stripped)
     }
+}
+
+/// Relative form of an absolute path that lies below the current directory
+/// (`.` for the current directory itself), `None` for every other path.
+fn strip_current_dir(path_str: &str) -> Option<String> {
+    static CWD: std::sync::OnceLock<Option<String>> = std::sync::OnceLock::new();
+    if !Path::new(path_str).is_absolute() {
+        return None;
+    }
+    let cwd = CWD
+        .get_or_init(|| {
+            std::env::current_dir()
+                .ok()
+                .map(|p| p.to_string_lossy().into_owned())
+        })
+        .as_deref()?;
+    let rest = path_str.strip_prefix(cwd)?;
+    if rest.is_empty() {
+        return Some(".".to_string());
+    }
+    let rest = rest
+        .strip_prefix('/')
+        .or_else(|| rest.strip_prefix('\\'))?;
+    Some(if rest.is_empty() { ".".to_string() } else { rest.to_string() })
 }
 
 #[cfg(test)]
